@@ -117,7 +117,8 @@ def t_default_rule(E):
     E.prove("C09.default_propagation_rule.primal_is_bind_of_primals", E.eq(E.call(D + "tree_primal", out), UVal(want)))
     all_in_nc = is_nc(ta) and (arg_b is b or is_nc(tb))
     noleaves = E.ctx.fn("has_no_leaves", U, E.z3.BoolSort())(want)
-    E.prove("C09.default_propagation_rule.all_inputs_nochange_gives_nochange", E.Implies(all_in_nc, T.all_nochange(out)))
+    # (precision - all inputs NoChange gives NoChange - is deliberately NOT an obligation: C09 demands soundness of the tags
+    #  only, and a more conservative rule still satisfies it)
     E.prove("C09.default_propagation_rule.nochange_only_if_all_inputs_nochange",
             E.Implies(T.all_nochange(out), E.Or(all_in_nc, noleaves)))
     E.prove("C09.default_propagation_rule.output_is_diff_tree", T.is_diff_tree(out))
